@@ -290,7 +290,7 @@ Section Levels.
   Lemma meets_deprecated :
     fops_safe false (cx_warn_prog cx) = true -> behaves_as g (as_callee d_deprecated cx).
   Proof.
-    intros Hs. enter Hwu; intros ?a ?k [?c0 ?w0]; wnorm; rw_mode; wnorm; no_warn_error Hs; sym; try discriminate; first [fin | eauto].
+    intros Hs. enter Hwu; intros ?a ?k [?c0 ?w0]; wnorm; try name_ok; wnorm; no_warn_error Hs; sym; try discriminate; first [fin | eauto].
   Qed.
 
   Lemma meets_require_kwargs : forall go,
@@ -313,7 +313,7 @@ Section Levels.
     sync_function (cx_callee cx COther) = true -> behaves_as go (cx_callee cx COther) ->
     behaves_as (spec_apply NDoesSame cx go g) (as_callee d_does_same_as_function cx).
   Proof.
-    intros go Hp Hs Ho. unfold sync_function in Hs. apply andb_true_iff in Hs as [Hio Hmo].
+    intros go Hp Hs Ho. pose proof (repr_harmless_name _ cx COther Hrepr) as Hno. unfold sync_function in Hs. apply andb_true_iff in Hs as [Hio Hmo].
     apply negb_true_iff in Hio. apply negb_true_iff in Hmo. unfold plain_function in Hp. apply eqb_prop in Hp.
     unfold spec_apply, spec_does_same.
     assert (Hcall : forall a k s, exists w, do_call cx COther a k false s = (fst (go a k (cs s)), Build_st (snd (go a k (cs s))) w))
@@ -338,7 +338,7 @@ Section Levels.
     (forall a k s, exists w, do_call cx COther a k true s = (fst (go a k (cs s)), Build_st (snd (go a k (cs s))) w)) ->
     behaves_as (spec_apply NDoesSame cx go g) (as_callee d_does_same_as_function cx).
   Proof.
-    intros go Hif Hio Hmo Hcall. unfold spec_apply, spec_does_same.
+    intros go Hif Hio Hmo Hcall. pose proof (repr_harmless_name _ cx COther Hrepr) as Hno. unfold spec_apply, spec_does_same.
     enter Hwu; try discriminate Hif.
     async_variant.
     repeat first [progress wnorm | progress rw_mode | fmt_ok Hrepr | name_ok | call_full Hf
@@ -371,9 +371,10 @@ Proof.
 Qed.
 
 Lemma unimplemented_never_calls : forall Sigma (cx : ctx Sigma) a k s,
+  name_readable cx CFunc ->
   use_wrapped d_unimplemented cx a k s = (RExc NotImplementedExceptionC (XFresh 4), s).
 Proof.
-  intros Sigma cx a k s. unfold use_wrapped, use_callee, as_callee. wnorm.
+  intros Sigma cx a k s Hn. unfold use_wrapped, use_callee, as_callee. wnorm. try name_ok. wnorm.
   destruct (c_mode (cx_callee cx CFunc)); reflexivity.
 Qed.
 
@@ -387,12 +388,13 @@ Proof.
 Qed.
 
 Lemma meets_unimplemented : forall Sigma (cx : ctx Sigma) go g,
+  name_readable cx CFunc ->
   behaves_as (spec_apply NUnimplemented cx go g) (as_callee d_unimplemented cx).
 Proof.
-  intros Sigma cx go g. unfold spec_apply, behaves_as, as_callee. cbn.
+  intros Sigma cx go g Hn. unfold spec_apply, behaves_as, as_callee. cbn.
   destruct (c_mode (cx_callee cx CFunc)) eqn:Em; cbn.
-  - intros a k [c0 w0]. wnorm. rw_mode. wnorm. eexists. left. repeat split.
-  - intros a k [c0 w0]. wnorm. rw_mode. wnorm. eauto.
+  - intros a k [c0 w0]. wnorm. try name_ok. wnorm. eexists. left. repeat split.
+  - intros a k [c0 w0]. wnorm. try name_ok. wnorm. eauto.
 Qed.
 
 (* using it like the twin *)
@@ -415,7 +417,8 @@ Section Stack.
   Definition level_side (n : dname) (cx : ctx Sigma) (go : base Sigma) : Prop :=
     match n with
     | NTrace | NTraceIfReturns => repr_harmless cx
-    | NDeprecated => fops_safe false (cx_warn_prog cx) = true
+    | NTimer | NCountCalls | NUnimplemented => name_readable cx CFunc
+    | NDeprecated => name_readable cx CFunc /\ fops_safe false (cx_warn_prog cx) = true
     | NDoesSame => repr_harmless cx /\ plain_function (cx_callee cx CFunc) = true
                    /\ sync_function (cx_callee cx COther) = true /\ behaves_as go (cx_callee cx COther)
     | NRequireKwargs => c_named (cx_callee cx CFunc) = true
@@ -429,12 +432,12 @@ Section Stack.
     behaves_as (spec_apply n cx go g) (as_callee (deco_of n) cx).
   Proof.
     intros n cx go g Hwu Hsim Hside. destruct n; cbn [deco_of]; cbn in Hside.
-    - apply meets_trace; assumption.
+    - pose proof (repr_harmless_name _ cx CFunc Hside). apply meets_trace; assumption.
     - apply meets_timer; assumption.
     - apply meets_count_calls; assumption.
-    - apply meets_deprecated; assumption.
-    - apply meets_trace_if_returns; assumption.
-    - destruct Hside as (Hr & Hp & Hs & Ho). apply meets_does_same; assumption.
+    - destruct Hside. apply meets_deprecated; assumption.
+    - pose proof (repr_harmless_name _ cx CFunc Hside). apply meets_trace_if_returns; assumption.
+    - destruct Hside as (Hr & Hp & Hs & Ho). pose proof (repr_harmless_name _ cx CFunc Hr). apply meets_does_same; assumption.
     - apply meets_rename_kwargs; assumption.
     - apply meets_overrides; assumption.
     - apply meets_require_kwargs; assumption.
@@ -553,6 +556,7 @@ Section Counter.
   Variable Sigma : Type.
   Variable cx : ctx Sigma.
   Let me := cx_self cx.
+  Hypothesis Hname : name_readable cx CFunc.      (* the message of the print can be built *)
   (* the callee does not write THIS wrapper's counter (num_calls is an attribute of the wrapper object; an inner
      count_calls wrapper has its own) *)
   Hypothesis Hcall : forall c a k s, cnt_get me (ws_cnt (ws (snd (c_call (cx_callee cx c) a k s)))) = cnt_get me (ws_cnt (ws s)).
@@ -562,9 +566,7 @@ Section Counter.
     cnt_get me (ws_cnt (ws (snd (use_wrapped d_count_calls cx a k s)))) = (cnt_get me (ws_cnt (ws s)) + 1)%Z.
   Proof.
     intros a k [c0 w0]. unfold use_wrapped, use_callee, as_callee. wnorm.
-    (* whether or not the message reads the function's name (it may be missing: then the print fails, after the call
-       was counted) *)
-    destruct (c_named (cx_callee cx CFunc)) eqn:En; wnorm;
+    try name_ok; wnorm;
     first
     [ solve [ unfold do_call;
               match goal with |- context [c_call (cx_callee cx CFunc) ?a ?k ?s] =>
@@ -583,7 +585,7 @@ Section Counter.
     cnt_get id (ws_cnt (ws (snd (use_wrapped d_count_calls cx a k s)))) = cnt_get id (ws_cnt (ws s)).
   Proof.
     intros id a k [c0 w0] Hne Hc Hr. unfold use_wrapped, use_callee, as_callee. wnorm.
-    destruct (c_named (cx_callee cx CFunc)) eqn:En; wnorm;
+    try name_ok; wnorm;
     first
     [ solve [ unfold do_call;
               match goal with |- context [c_call (cx_callee cx CFunc) ?a ?k ?s] =>
@@ -615,6 +617,7 @@ Section Deprecated.
   Variable Sigma : Type.
   Variable cx : ctx Sigma.
   Hypothesis Hprog : cx_warn_prog cx = raise_warning_prog.
+  Hypothesis Hname : name_readable cx CFunc.      (* the message of the warning can be built *)
   (* the callee itself emits no DeprecationWarning *)
   Hypothesis Hcall : forall c a k s,
     n_deprecation (ws_log (ws (snd (c_call (cx_callee cx c) a k s)))) = n_deprecation (ws_log (ws s)).
@@ -624,7 +627,7 @@ Section Deprecated.
   Lemma deprecated_one_call : forall a k s,
     n_deprecation (ws_log (ws (snd (use_wrapped d_deprecated cx a k s)))) = S (n_deprecation (ws_log (ws s))).
   Proof.
-    intros a k [c0 w0]. unfold use_wrapped, use_callee, as_callee. wnorm. rw_mode. wnorm. rewrite Hprog. unfold raise_warning_prog, run_fops.
+    intros a k [c0 w0]. unfold use_wrapped, use_callee, as_callee. wnorm. try name_ok. wnorm. rewrite Hprog. unfold raise_warning_prog, run_fops.
     wnorm. unfold do_call.
     match goal with |- context [c_call (cx_callee cx CFunc) ?a ?k ?s] =>
       pose proof (Hcall CFunc a k s) as H1; destruct (c_call (cx_callee cx CFunc) a k s) as [r [c1 w1]] end.
@@ -724,6 +727,7 @@ Section ClassCall.
       by (cbn; now apply prepend_behaves).
     assert (Hwu2 : awaited_if_coro (cx_callee (with_callee cx (prepend pre fn)) CFunc) = true) by exact Hwu.
     assert (Hrepr2 : repr_harmless (with_callee cx (prepend pre fn))) by exact Hrepr.
+    pose proof (repr_harmless_name _ _ CFunc Hrepr2) as Hname2.
     assert (Hd : forall n, n = NTrace \/ n = NTimer ->
               exists w', use_wrapped (deco_of n) (with_callee cx (prepend pre fn)) given k s =
                          (fst (g (pre ++ given) k (cs s)), Build_st (snd (g (pre ++ given) k (cs s))) w')).
